@@ -721,6 +721,25 @@ theorem nrpsPks_regenerated_keeps_gene_order (r : ModRules) (ctx : Ctx) (x : Nrp
       ∧ y.toJson = x.toJson ∧ y.domainIds = x.domainIds :=
   ⟨x, NrpsPks.fromJson_toJson r ctx x hv, rfl, rfl, rfl⟩
 
+/-- `annotate_cds_features` reaches every stored CDSResults — also those kept for genes of already
+    existing (sideloaded) subregions when no protocluster was found at all: each of them gets its
+    `sec_met` qualifier (and through the round trip the same holds after regeneration) -/
+theorem annotations_cover_outside_hits (x : RuleRes) :
+    (∀ c ∈ x.outside, c.cdsName ∈ x.annotateAll.map (·.1))
+    ∧ (∀ p ∈ x.byCluster, ∀ c ∈ p.2, c.cdsName ∈ x.annotateAll.map (·.1)) := by
+  have h := (foldl_updState_keys x.tool (x.byCluster.flatMap (·.2) ++ x.outside) []).2
+  constructor
+  · intro c hc
+    exact h c (List.mem_append_right _ hc)
+  · intro p hp c hc
+    exact h c (List.mem_append_left _ (List.mem_flatMap.mpr ⟨p, hp, hc⟩))
+
+theorem regenerated_annotates_outside_hits (ctx : Ctx) (x : HmmDet) (hv : x.valid ctx = true) :
+    ∃ y, HmmDet.fromJson ctx x.toJson = .reuse y ∧ y.rules.annotateAll = x.rules.annotateAll
+      ∧ ∀ c ∈ x.rules.outside, c.cdsName ∈ y.rules.annotateAll.map (·.1) := by
+  obtain ⟨y, hy, ha⟩ := hmmDetection_adds_same_annotations ctx x hv
+  exact ⟨y, hy, ha, fun c hc => by rw [ha]; exact (annotations_cover_outside_hits x.rules).1 c hc⟩
+
 /-! ### non-vacuity: the invariants hold on non-trivial concrete objects -/
 
 def exHit : HMMResult :=
@@ -840,5 +859,11 @@ example : exOrder.domainIds = ["nrpspksdomains_nrpsB_PKS_KS.1", "nrpspksdomains_
 example : ∃ y, NrpsPks.fromJson exRules exOrderCtx exOrder.toJson = .reuse y ∧ y.cds.map (·.1) = ["nrpsB", "nrpsA"] := by
   obtain ⟨y, hy, ho, _⟩ := nrpsPks_regenerated_keeps_gene_order exRules exOrderCtx exOrder (by decide)
   exact ⟨y, hy, ho⟩
+
+-- no protocluster at all, one gene of an existing subregion with a hit: it is annotated
+def exOutside : RuleRes := ⟨"rule-based-clusters", [], [⟨"cdsA", [⟨"PP-binding", ⟨1, -5⟩, ⟨2, 1⟩, 164, "rule-based-clusters"⟩], []⟩], ⟨1, 0⟩, ⟨1, 0⟩⟩
+example : exOutside.annotateAll = [("cdsA", ⟨some [⟨"PP-binding", ⟨1, -5⟩, ⟨2, 1⟩, 164, "rule-based-clusters"⟩],
+    ⟨[⟨.additional, "rule-based-clusters", "PP-binding", none⟩], [⟨.additional, "rule-based-clusters", "PP-binding", none⟩]⟩⟩)] := by
+  decide +kernel
 
 end ASV.C11
